@@ -237,6 +237,14 @@ def _alphabet(shape, rng):
         ops.append(dict(op="set", key={"t": "subs", "rows": [r1, r2]}, val=0))
         ops.append(dict(op="get", key={"t": "subs", "rows": [r2, r1]}))
         ops.append(dict(op="set", key={"t": "subs", "rows": [r1, r3]}, val=[0.0, 5.0]))
+        # growth caused by a position that receives a zero (alone / as the farthest entry of a mixed batch)
+        r4 = [x + 2 for x in r3]
+        ops.append(dict(op="set", key={"t": "subs", "rows": [r1, r4]}, val=[5.5, 0.0]))
+        ops.append(dict(op="set", key={"t": "subs", "rows": [r2, r1, r4]}, val=[4.5, 0.0, 0.0]))
+    r5 = list(inside)
+    r5[0] = shape[0] + 2
+    ops.append(dict(op="set", key={"t": "subs", "rows": [r5]}, val=0))
+    ops.append(dict(op="set", key=T(list(r5)), val=0))
     ops.append(dict(op="set", key={"t": "subs", "rows": [r1]}, val=6.0))
     ops.append(dict(op="get", key={"t": "subs", "rows": [r1]}))
     # linear indices (first index fastest), negative, lists, slices
